@@ -10,14 +10,14 @@ HT = "source/hash_table.c"
 ST = "hash_table_state"
 
 DECIDED = [
-    "DESTRUCT: key/value destructors are invoked only by put (overwrite, key only when the pointer differs), remove (no out-parameter), iterator delete (when requested) and clear (occupied slots); removal either hands the entry over or destroys it, never both or neither; every destructor argument is the key/value field of a stored aws_hash_element; foreach deletes with destroy_contents = false",
+    "DESTRUCT: key/value destructors are invoked only by put (overwrite, key only when the pointer differs), remove (no out-parameter), iterator delete (when requested) and clear (occupied slots); removal either hands the entry over or destroys it, never both or neither; every destructor argument is the key/value field of a stored aws_hash_element; foreach deletes with destroy_contents = false; no destructor call depends on the other destructor being set",
     "COUNT: entry_count is incremented once per new entry (before it is emplaced), decremented once per removal, zeroed only together with the slot array",
     "LOAD: a new entry is admitted only after the load check may have expanded the table; the resize clamps max_load below size (an empty slot always exists, so probing terminates)",
     "NONZERO-HASH: every hash code handed to the table is >= 1 (0 marks an empty slot) and depends on no table state other than hash_fn; the user's hash function is called only by s_hash_for and its equality only through the NULL-safe wrapper, which treats identical pointers (including NULL/NULL) as equal first",
     "STALE: state derived from the table before a resize is re-read before it is used again",
     "SLOT: every subscript of the slot array is below size (index & mask, loop counters below size); named assumptions for iterator-held indices",
     "ITER: iterator delete shrinks the limit exactly when the back-shift ended outside the window [slot, limit); done() is an equality test; slot steps back once",
-    "HASH-ALIGN: lookup3's three alignment variants consume the key with the same block loop, so a key's hash does not depend on its address",
+    "HASH-ALIGN: lookup3's three alignment variants consume the key with the same block loop, so a key's hash does not depend on its address; the case-insensitive hash and equality both read every byte through s_tolower_table, which folds exactly 'A'..'Z' (equal keys hash equally for the library's own case-insensitive pair)",
 ]
 NOT_DECIDED = ["map equivalence under arbitrary collisions (Robin Hood displacement and backward shift compute the right layout)", "iterator visiting each entry exactly once as a run-time fact"]
 ASSUMPTIONS = ["hash_table_state valid: mask = size - 1, size >= 2, max_load < size, slots has `size` entries (hash_table_state_is_valid)",
@@ -117,6 +117,10 @@ def destruct(R, fns):
                 R.check(a0 is not None and a0["k"] == "member" and a0.get("rec") == "aws_hash_element" and a0["f"] == fld, "DESTRUCT", "%s:%s-destroys-stored-%s" % (name, via[1], fld), where(f, e),
                         "the destructor is given the stored element's %s (%s)" % (fld, f.show(a0) if a0 else None),
                         "%s is given `%s`, which is not the %s held by a table entry: a pointer the table does not own is destroyed and the stored one leaks" % (via[1], f.show(a0) if a0 else None, fld))
+                other = "destroy_value_fn" if via[1] == "destroy_key_fn" else "destroy_key_fn"
+                cross = [f.show(f.d(c_)) for c_, p_, b_ in RU.guards(f, e) if other in f.show(f.d(c_))]
+                R.check(not cross, "DESTRUCT", "%s:%s-independent-of-%s" % (name, via[1], other), where(f, e), "the %s call does not depend on whether a %s is set" % (via[1], other),
+                        "%s runs only when %s is also set (%s): in a table with only one of the two destructors the other kind of object is never destroyed (leaked on overwrite)" % (via[1], other, cross))
                 g = gl(f, e)
                 if name == "aws_hash_table_put":
                     ok = ("*was_created", "==", None) in g and (via[1] != "destroy_key_fn" or ("p_elem->key", "!=", "key") in g)
@@ -423,9 +427,63 @@ def hash_align(R, P):
         g = P.fn(nm)
         if g:
             R.check(len(g.calls("hashlittle2")) == 1, "HASH-ALIGN", "%s:uses-hashlittle2" % nm, "%s()" % nm, "library hash built on hashlittle2")
+    ignore_case_pair(R, P)
+
+
+def ignore_case_pair(R, P):
+    """the case-insensitive hash / equality pair agree: both look at every byte only through s_tolower_table, the table
+    folds exactly 'A'..'Z', so keys the equality calls equal hash equally"""
+    h, q = P.fn("aws_hash_array_ignore_case"), P.fn("aws_array_eq_ignore_case")
+    tb = P.globals.get("s_tolower_table")
+    if not R.require(h is not None and q is not None and tb is not None, "case-insensitive hash/equality pair or s_tolower_table not found"):
+        return
+    R.fn(h)
+    R.fn(q)
+    arr = (tb.get("init") or {}).get("array") if isinstance(tb.get("init"), dict) else None
+    vals = [x.get("int") for x in arr] if arr else []
+    want = [(c_ + 32 if 65 <= c_ <= 90 else c_) for c_ in range(256)]
+    R.check(vals == want, "HASH-ALIGN", "ignore-case:table-folds-A-Z-only", "source/byte_buf.c:%s" % tb.get("line"), "s_tolower_table maps 'A'..'Z' to 'a'..'z' and every other byte to itself",
+            "s_tolower_table differs from ASCII lower-casing at %s" % [i for i in range(min(len(vals), 256)) if vals[i] != want[i]][:5])
+
+    def through_table(f, n):
+        x = RU.uncast(f, n)
+        while x is not None and x["k"] == "cast":
+            x = f.d(x["a"][0])
+        if x is not None and x["k"] == "var" and x.get("sc") == "local":
+            for e in f.all_events():
+                if e.kind == "decl":
+                    for v in e.node["vars"]:
+                        if v["n"] == x["n"] and v.get("init") is not None:
+                            return through_table(f, v["init"])
+            return False
+        return x is not None and x["k"] == "index" and f.show(f.d(x["a"][0])) in ("s_tolower_table",)
+    # hash: everything folded into the hash besides constants is a table read
+    folded = []
+    for b in h.blocks.values():
+        for el in b.elems:
+            for x in h.walk(el):
+                if x["k"] == "bin" and x["op"] in ("^=", "+=", "|=", "=") and h.show(h.d(x["a"][0])) == "hash" and h.is_const(x["a"][1]) is None:
+                    rhs = h.d(x["a"][1])
+                    if x["op"] == "=" and rhs is not None and rhs["k"] == "bin":
+                        folded.extend(a for a in rhs["a"] if h.show(h.d(a)) != "hash" and h.is_const(a) is None)
+                    elif h.show(rhs) not in ("fnv_prime", "fnv_offset_basis"):
+                        folded.append(x["a"][1])
+    R.check(bool(folded) and all(through_table(h, a) for a in folded), "HASH-ALIGN", "ignore-case:hash-reads-through-table", "%s()" % h.name, "every byte folded into the hash is s_tolower_table[byte] (%d sites)" % len(folded),
+            "aws_hash_array_ignore_case folds %s into the hash: some byte values bypass the lower-casing table that the equality applies, so equal keys (differing only in case) hash differently and are not found" % [h.show(a) for a in folded if not through_table(h, a)])
+    cmps = []
+    for b in q.blocks.values():
+        for el in list(b.elems) + ([b.cond] if b.cond is not None else []):
+            for x in q.walk(el):
+                if x["k"] == "bin" and x["op"] in ("!=", "==") and any(y["k"] == "index" for y in q.walk(x, follow_refs=True)):
+                    cmps.append(x)
+    R.check(bool(cmps) and all(through_table(q, a) for x in cmps for a in x["a"]), "HASH-ALIGN", "ignore-case:equality-reads-through-table", "%s()" % q.name, "bytes are compared as s_tolower_table[a[i]] vs s_tolower_table[b[i]]",
+            "aws_array_eq_ignore_case compares bytes without the lower-casing table on one side")
 
 
 MUTANTS = [
+    {"name": "value-destructor-needs-key-destructor", "file": HT, "expect": "DESTRUCT", "old": "        if (p_elem->key != key && state->destroy_key_fn) {\n            state->destroy_key_fn((void *)p_elem->key);\n        }\n\n        if (state->destroy_value_fn) {\n            state->destroy_value_fn((void *)p_elem->value);\n        }",
+     "new": "        if (state->destroy_key_fn) {\n            if (p_elem->key != key) {\n                state->destroy_key_fn((void *)p_elem->key);\n            }\n            if (state->destroy_value_fn) {\n                state->destroy_value_fn((void *)p_elem->value);\n            }\n        }"},
+    {"name": "ignore-case-hash-skips-table-for-Z", "file": "source/byte_buf.c", "expect": "HASH-ALIGN", "old": "        const uint8_t lower = s_tolower_table[*i++];", "new": "        const uint8_t c = *i++;\n        const uint8_t lower = (c < 'Z') ? s_tolower_table[c] : c;"},
     {"name": "remove-destroys-lookup-key", "file": HT, "expect": "DESTRUCT", "old": "            state->destroy_key_fn((void *)entry->element.key);\n        }\n        if (state->destroy_value_fn) {\n            state->destroy_value_fn(entry->element.value);\n        }\n    }\n    s_remove_entry(state, entry);",
      "new": "            state->destroy_key_fn((void *)key);\n        }\n        if (state->destroy_value_fn) {\n            state->destroy_value_fn(entry->element.value);\n        }\n    }\n    s_remove_entry(state, entry);"},
     {"name": "zero-hash-becomes-size", "file": HT, "expect": "NONZERO-HASH", "old": "    if (!hash_code) {\n        hash_code = 1;\n    }", "new": "    if (!hash_code) {\n        hash_code = (uint64_t)state->size;\n    }"},
